@@ -85,8 +85,9 @@ class SArr:
             if getattr(tgt, "frozen", False):
                 from . import values as _V
                 p = _V.PATH[0]
-                if p is not None:
-                    p.oblige("frame.cached_result_mutated", False, {"kind": "safety"})
+                if p is not None and getattr(p, "interp", None) is not None:
+                    # reported by the path's `frame.cached_results_read_only` obligation
+                    p.interp.cached_mutated = True
                 break
             tgt = tgt.base
         if self.base is not None:
